@@ -79,7 +79,7 @@ func checkCalls(root *probe.Impl, calls []*call) {
 
 // callers: concurrent calls through two proxies of one connection and one
 // proxy of a second connection, plus a one-way post.
-func callers(nThreads int) func() {
+func callers(nThreads int, fine bool) func() {
 	return func() {
 		w := fx.Start(bus.Yes{})
 		c1, c2 := w.MustConnect(), w.MustConnect()
@@ -87,6 +87,7 @@ func callers(nThreads int) func() {
 		calls := []*call{{name: "echo", arg: 5}, {name: "echo", arg: 7}, {name: "echo", arg: 9}, {name: "slow", arg: 11}}
 		postID := uint32(9001)
 		vrt.Explore()
+		vrt.SetFine(fine)
 		var ws []*vrt.Thread
 		ws = append(ws, vrt.GoWorker("A", func() {
 			calls[0].res, calls[0].err = pA.Echo(5)
@@ -280,9 +281,11 @@ func frames() {
 }
 
 func init() {
-	reg.Register(&reg.Scenario{Property: "C04", Name: "two-callers", Body: callers(2), Quick: 2, Thorough: 3,
+	reg.Register(&reg.Scenario{Property: "C04", Name: "two-callers-statement-level", Body: callers(2, true), Quick: 2, Thorough: 3,
+		Doc: "as two-callers with bus/client.go interleaved at statement level (unsynchronised client state)", MustFlag: []string{"replies-crossed"}})
+	reg.Register(&reg.Scenario{Property: "C04", Name: "two-callers", Body: callers(2, false), Quick: 2, Thorough: 3,
 		Doc: "2 goroutines, 2 proxies on one connection: echo(5);slow(11) || echo(7)", MustFlag: []string{"replies-crossed"}})
-	reg.Register(&reg.Scenario{Property: "C04", Name: "three-callers-post", Body: callers(3), Quick: 2, Thorough: 3,
+	reg.Register(&reg.Scenario{Property: "C04", Name: "three-callers-post", Body: callers(3, false), Quick: 2, Thorough: 3,
 		Doc: "3 goroutines on 2 connections: echo(5);slow(11) || echo(7) || echo(9);post inc()", MustFlag: []string{"server-order-differs-from-default"}})
 	reg.Register(&reg.Scenario{Property: "C04", Name: "cancel-slow", Body: cancel(103, "slow(4)", fx.Int32(4), probe.EchoResult(4)), Quick: 2, Thorough: 3,
 		Doc: "Call(slow(4)) with a cancel channel || close(cancel)", MustFlag: []string{"cancelled"}})
